@@ -3,10 +3,13 @@ package harness
 import (
 	"context"
 	"fmt"
+	"os"
+	"path/filepath"
 	"regexp"
 	"runtime"
 	"strings"
 	"sync"
+	"syscall"
 	"time"
 
 	"github.com/tonistiigi/fsutil"
@@ -106,6 +109,7 @@ func RunSync(src fsutil.FS, dest string, o SyncOpt) *SyncResult {
 		pair.R.Cancel()
 		cancelSend()
 		cancelRecv()
+		ReleaseFifoOpeners(dest)
 		if dump2 := WaitOrStuck(done, pair); dump2 != "" {
 			res.StuckAfterTeardown = dump2
 			select {
@@ -183,6 +187,27 @@ func blockedState(s string) bool {
 	return true
 }
 
+// blockedInFifoOpen: a goroutine sitting in open(2) while a thread of this
+// process waits in the kernel's fifo_open for a partner. The harness never
+// opens the other end of a FIFO, so such an open cannot complete: unlike any
+// other system call it is a blocked state, decided from the kernel's wait
+// channel and not from elapsed time.
+func blockedInFifoOpen(g gor) bool {
+	if !strings.Contains(g.body, "syscall.openat") && !strings.Contains(g.body, "syscall.Open(") {
+		return false
+	}
+	tasks, _ := filepath.Glob("/proc/self/task/*/wchan")
+	for _, t := range tasks {
+		if b, err := os.ReadFile(t); err == nil {
+			w := strings.TrimSpace(string(b))
+			if w == "wait_for_partner" || w == "fifo_open" {
+				return true
+			}
+		}
+	}
+	return false
+}
+
 // fingerprint of all relevant goroutines; ok=false if any is not blocked.
 func quiescentFingerprint() (string, bool, string) {
 	gs := dumpGoroutines()
@@ -193,7 +218,7 @@ func quiescentFingerprint() (string, bool, string) {
 			continue
 		}
 		n++
-		if !blockedState(g.state) {
+		if !blockedState(g.state) && !(g.state == "syscall" && blockedInFifoOpen(g)) {
 			return "", false, ""
 		}
 		sb.WriteString(g.id + "|" + g.state + "|" + g.body + "\n")
@@ -372,4 +397,21 @@ func MutualSendDeadlock(dump string) bool {
 		}
 	}
 	return sendS && sendR
+}
+
+// ReleaseFifoOpeners opens every FIFO below root for writing without blocking
+// and closes it again, which wakes up any open(2) for reading that waits for
+// a partner (clean-up after a stuck verdict; never part of a verdict).
+func ReleaseFifoOpeners(root string) {
+	filepath.WalkDir(root, func(p string, d os.DirEntry, err error) error {
+		if err != nil || d == nil {
+			return nil
+		}
+		if d.Type()&os.ModeNamedPipe != 0 {
+			if fd, err := syscall.Open(p, syscall.O_WRONLY|syscall.O_NONBLOCK|syscall.O_CLOEXEC, 0); err == nil {
+				syscall.Close(fd)
+			}
+		}
+		return nil
+	})
 }
